@@ -1,5 +1,6 @@
 import IdenaModel.Model.Store
 import IdenaModel.Drivers.Util
+import IdenaModel.Model.KeyEmbed
 /-! Driver for channel C13: drives `Overlay.step` (the model of `BackedMemDb`).
 
 Glue that is not in the model (tm-db MemDB argument checks, mirrored literally):
@@ -11,8 +12,8 @@ open IdenaModel.Store IdenaModel.Drv
 
 def keyLen : Nat := 8
 
-def encKey (bs : List Nat) : Nat :=
-  (List.range keyLen).foldl (fun acc i => acc * 257 + (match bs[i]? with | some b => b + 1 | none => 0)) 0
+/-- the embedding proved to be an order embedding in `Props/C13Key.lean` (`enc_lt_iff`, `enc_inj`) -/
+def encKey (bs : List Nat) : Nat := IdenaModel.KeyEmbed.enc keyLen bs
 
 def decKeyAux : Nat → Nat → List Nat → List Nat
   | 0, _, acc => acc
